@@ -13,6 +13,7 @@ import io
 import os
 import re
 import shutil
+import socket
 import struct
 import tempfile
 import threading
@@ -602,30 +603,66 @@ class WouldBlock(BaseException):
 
 class ScriptSock:
     """A socket-like object: parses the packets the client sends, lets `server(t, payload)` produce the
-    reply packets, serves them to recv(); an empty receive buffer means the call would block forever."""
+    reply packets, serves them to recv(); an empty receive buffer (with no reply held back and no
+    background thread still sending) means the call would block forever.
 
-    def __init__(self, server):
+    reorder: a random.Random - the server then answers every request exactly once but OUT OF ORDER: replies
+    are held back and released, shuffled, when the client next has nothing to read.
+    dead: "eof" - the server is gone: further packets are accepted and ignored, reads see end of stream after
+    what was already queued; "sendfail" - further sends raise socket.error as well."""
+
+    def __init__(self, server, reorder=None):
         self.server = server
         self.out = b""
         self.inp = b""
         self.ready = False
+        self.reorder = reorder
+        self.held = []
+        self.dead = None
+        self.lock = threading.RLock()
 
     def send(self, data):
-        self.out += bytes(data)
-        while len(self.out) >= 4:
-            n = struct.unpack(">I", self.out[:4])[0]
-            if len(self.out) < 4 + n:
-                break
-            pkt, self.out = self.out[4:4 + n], self.out[4 + n:]
-            for t, payload in self.server(pkt[0], pkt[1:]):
-                self.inp += struct.pack(">I", len(payload) + 1) + bytes([t]) + payload
-        return len(data)
+        with self.lock:
+            if self.dead == "sendfail":
+                raise socket.error("Socket is closed")
+            if self.dead:
+                return len(data)
+            self.out += bytes(data)
+            while len(self.out) >= 4 and not self.dead:
+                n = struct.unpack(">I", self.out[:4])[0]
+                if len(self.out) < 4 + n:
+                    break
+                pkt, self.out = self.out[4:4 + n], self.out[4 + n:]
+                for t, payload in self.server(pkt[0], pkt[1:]):
+                    raw = struct.pack(">I", len(payload) + 1) + bytes([t]) + payload
+                    if self.reorder is not None:
+                        self.held.append(raw)
+                    else:
+                        self.inp += raw
+            return len(data)
+
+    @staticmethod
+    def _background_senders():
+        return any(t.is_alive() and getattr(getattr(t, "_target", None), "__name__", "") == "_prefetch_thread"
+                   for t in threading.enumerate())
 
     def recv(self, n):
-        if not self.inp:
+        deadline = time.time() + 10.0
+        while True:
+            with self.lock:
+                if not self.inp and self.held:
+                    self.reorder.shuffle(self.held)
+                    self.inp = b"".join(self.held)
+                    self.held = []
+                if self.inp:
+                    x, self.inp = self.inp[:n], self.inp[n:]
+                    return x
+                if self.dead:
+                    return b""
+            if self._background_senders() and time.time() < deadline:
+                time.sleep(0.001)       # a prefetch thread is still putting requests on the wire
+                continue
             raise WouldBlock()
-        x, self.inp = self.inp[:n], self.inp[n:]
-        return x
 
     def recv_ready(self):
         return self.ready
@@ -712,9 +749,9 @@ def hang_program():
             [("OWrite", True, ok)] * 120 + [("OClose", [], ok)])
 
 
-def new_client(server):
+def new_client(server, reorder=None):
     from paramiko.sftp_client import SFTPClient
-    sock = ScriptSock(server)
+    sock = ScriptSock(server, reorder)
 
     def handshake(t, payload):
         return [(2, struct.pack(">I", 3))]
@@ -725,8 +762,9 @@ def new_client(server):
     return c, sock
 
 
-def run_program_impl(prog):
-    """Run the program on the real SFTPClient/SFTPFile.  Returns outcome codes (0 return, else exception)."""
+def run_program_impl(prog, reorder=None):
+    """Run the program on the real SFTPClient/SFTPFile.  Returns outcome codes (0 return, else exception).
+    reorder: a random.Random - the scripted server answers out of order (see ScriptSock)."""
     from paramiko.sftp_file import SFTPFile
     replies = []
     readies = []
@@ -738,7 +776,7 @@ def run_program_impl(prog):
             sock.ready = readies.pop(0)      # what recv_ready() says right after this request went out
         return [reply_packet(rt, num, code)]
 
-    c, sock = new_client(server)
+    c, sock = new_client(server, reorder)
     f = SFTPFile(c, b"hx1", "wb", 0)
     f.MAX_REQUEST_SIZE = 4
     out = []
@@ -789,6 +827,60 @@ def coq_prog(prog):
 BLOCK_KEY = "client-blocks:_write-drain-waits-for-consumed-reply"
 
 
+def reorder_reads_part(ctx, n):
+    """prefetch + read and readv against a scripted file server that answers out of order."""
+    import random
+    blob = bytes((13 * k + 7) % 253 for k in range(150000))
+
+    def one(seed, kind, arg):
+        def server(t, payload):
+            num = struct.unpack(">I", payload[:4])[0]
+            if t == 3:
+                return [reply_packet(102, num, 0)]
+            if t == 5:
+                hl = struct.unpack(">I", payload[4:8])[0]
+                off, ln = struct.unpack(">QI", payload[8 + hl:20 + hl])
+                data = blob[off:off + ln]
+                if not data:
+                    return [reply_packet(101, num, 1)]
+                return [(103, struct.pack(">I", num) + s_str(data))]
+            if t in (8, 17, 7):
+                return [reply_packet(105, num, len(blob))]
+            return [reply_packet(101, num, 0)]
+
+        c, sock = new_client(server, random.Random(seed))
+        with c.open("/blob", "rb") as f:
+            if kind == "prefetch":
+                f.prefetch(len(blob) + arg[0] * 32768, arg[1])
+                c.stat("/x")
+                return f.read() == blob
+            chunks = arg
+            got = list(f.readv(chunks))
+            return got == [blob[o:o + l] for o, l in chunks]
+
+    rng = ctx.rng
+    for j in range(n):
+        if j % 2 == 0:
+            kind, arg = "prefetch", (rng.choice([0, 0, 2]), rng.choice([None, None, 1, 3]))
+        else:
+            offs = sorted(rng.sample(range(0, len(blob), 1000), rng.randrange(2, 12)))
+            kind, arg = "readv", [(o, rng.choice([10, 999, 1000, 40000])) for o in offs] + \
+                [(len(blob) + rng.choice([0, 5000]), 100)] * rng.choice([0, 1])
+        seed = "reorder-reads-%d-%d" % (ctx.seed, j)
+        case = {"kind": kind, "arg": arg, "reorder_seed": seed}
+        ctx.count(("reorder-reads", repr(case)), kind="client:reordering-server:" + kind)
+        st, v = with_watchdog(lambda: one(seed, kind, arg), 20.0)
+        if st == "hang" or (st == "exc" and isinstance(v, WouldBlock)):
+            ctx.fail("client-blocks:reordered-replies:" + kind, "%s on a server that answers out of order never "
+                     "completes although every request was answered" % kind, case=case)
+        elif st == "exc":
+            ctx.fail("client-raises:reordered-replies:" + kind, "%s on a server that answers out of order raised %r"
+                     % (kind, v), case=case, observed=repr(v))
+        elif v is not True:
+            ctx.fail("client-wrong-data:reordered-replies:" + kind, "%s on a server that answers out of order "
+                     "returned bytes that are not the file's" % kind, case=case)
+
+
 def client_part(ctx, nprogs):
     rng = ctx.rng
     progs = [hang_program()] + [gen_program(rng) for _ in range(nprogs)]
@@ -806,6 +898,18 @@ def client_part(ctx, nprogs):
                      "forever" % (k, prog[k][0]),
                      case={"program": prog if len(prog) < 400 else prog[:k + 1]}, expected="returns or raises",
                      observed="blocked at operation %d" % k)
+        # the same program against a server that answers every request once but OUT OF ORDER (legal)
+        import random
+        rimpl = run_program_impl(prog, reorder=random.Random("reorder-%d-%d" % (ctx.seed, j)))
+        ctx.count(("prog-reordered", repr(prog)), nontrivial=len(prog) > 2, kind="client:reordering-server")
+        if 98 in rimpl:
+            k = rimpl.index(98)
+            ctx.fail("client-blocks:reordered-replies:" + prog[k][0],
+                     "operation %d (%s) waits for a packet although the (reordering) server has answered every "
+                     "request: it blocks forever" % (k, prog[k][0]),
+                     case={"program": prog if len(prog) < 400 else prog[:k + 1], "reorder": True,
+                           "reorder_seed": "reorder-%d-%d" % (ctx.seed, j)},
+                     expected="returns or raises", observed="blocked at operation %d" % k)
         cases.append((coq_prog(prog), impl))
         if j == 1:
             ctx.sample({"client_program": prog[:12], "outcomes": impl[:12]})
@@ -1096,6 +1200,7 @@ def run(ctx):
     cross_check_constants(ctx)
     for name, fn in (("server", lambda: server_part(ctx, 150 * scale)),
                      ("client", lambda: client_part(ctx, 60 * scale)),
+                     ("reorder-reads", lambda: reorder_reads_part(ctx, 12 * scale)),
                      ("live", lambda: live_part(ctx, 4 * (3 if ctx.thorough else 1)))):
         t0 = time.time()
         try:
@@ -1119,7 +1224,8 @@ def replay(ctx, rep):
                 return ("OSetPipe", op[1])
             return ("OClose", [(a, tuple(b)) for a, b in op[1]], tuple(op[2]))
         prog = [fix(op) for op in case["program"]]
-        impl = run_program_impl(prog)
+        import random
+        impl = run_program_impl(prog, reorder=random.Random(case["reorder_seed"]) if case.get("reorder") else None)
         ctx.count(("replay", repr(prog)))
         ctx.count(("replay2", repr(prog)))
         if 98 in impl:
